@@ -568,3 +568,20 @@ mod tests {
 		assert!(matches!(result, Err(crate::ln::msgs::DecodeError::InvalidValue)));
 	}
 }
+
+/// Thin wrappers around crate-private items for external verification harnesses.
+#[cfg(feature = "_verif_hooks")]
+pub mod verif_hooks_offers_merkle {
+	use super::*;
+
+	/// [`TaggedHash::from_valid_tlv_stream_bytes`]. Panics like the wrapped function if `bytes` is
+	/// not a well-formed TLV stream containing at least one non-signature TLV record.
+	pub fn tagged_hash_from_tlv_stream_bytes(tag: &'static str, bytes: &[u8]) -> TaggedHash {
+		TaggedHash::from_valid_tlv_stream_bytes(tag, bytes)
+	}
+
+	/// The bounds of [`SIGNATURE_TYPES`].
+	pub fn signature_types() -> (u64, u64) {
+		(*SIGNATURE_TYPES.start(), *SIGNATURE_TYPES.end())
+	}
+}
